@@ -27,7 +27,7 @@ LEVEL_TEXT = ("26 failure kinds (wrong output of 1-3 lines; exception raised dir
               "exec / compile; eight compile-only errors; a raising __repr__ with and without output, class defined in the "
               "module or in the doctest; a module that raises at import; three malformed REQUIRES directives, inline and block) "
               "x failing part first / middle / last x surrounding shapes (preceding statements, wants, multi-line statements, "
-              "prose, following statements) x verbosity 0-3 x runner (DocTest.run(on_error='return'), doctest_module on a module "
+              "prose, following statements) x verbosity 0-3 plus wrong wants built from a token alphabet (blank-line markers, whitespace, quotes, ANSI codes, format characters) x runner (DocTest.run(on_error='return'), doctest_module on a module "
               "[good, bad, good], the CLI on a sample): run must return a summary marked failed and not passed, no exception of "
               "any kind may escape run or repr_failure, the report must contain 'REASON: <class>' with the by-construction "
               "class and the by-construction file line (and be printed by run itself at verbosity >= 2), doctest_module must "
@@ -123,9 +123,19 @@ POST = {
 POSITIONS = {'first': ([], ['stmt_want']), 'middle': (['stmt_want', 'multi'], ['stmt']), 'last': (['multi_want', 'stmt', 'def'], [])}
 
 
+FUZZ_TOKENS = ['a', 'b c', '<BLANKLINE>', ' ', '  ', '\t', "'q'", 'u"x"', '...', '.', '\x1b[31mred\x1b[0m', '0', 'é', '{}', '%s', '\\']
+
+
+def fuzz_block(case):
+    """a printing statement with an arbitrary (writable) want; whether it fails is decided by running it"""
+    f = case['fuzz']
+    want = [ln for ln in f['want']]
+    return [">>> print({!r})".format(f['got'])] + want, 1, ['GotWantException']
+
+
 def build_bad(case):
     """-> (doctest lines, index of the failing line or None)"""
-    block, rel, classes = KINDS[case['kind']]
+    block, rel, classes = fuzz_block(case) if case['kind'] == 'want_fuzz' else KINDS[case['kind']]
     lines = []
     k = 0
     for name in case.get('pre', []):
@@ -195,7 +205,7 @@ def check_case(case, ctx):
     kind = case['kind']
     verbose = case.get('verbose', 0)
     runner = case.get('runner', 'run')
-    classes = KINDS[kind][2]
+    classes = ['GotWantException'] if kind == 'want_fuzz' else KINDS[kind][2]
     ref_check(lines, case, fail_line)
     name = sandbox.unique_name('vpc09')
     with sandbox.scratch('c09') as d:
@@ -229,6 +239,10 @@ def check_case(case, ctx):
                     raise Violation('run_raises:{}:{}'.format(kind, type(e).__name__),
                                     "run(on_error='return') raised {}: {}\n{}".format(type(e).__name__, _safe(e), where),
                                     detail=_tb(e))
+                if kind == 'want_fuzz' and summary.get('passed'):
+                    if ctx is not None:
+                        ctx.notes['want_fuzz_matched_discarded'] += 1
+                    return
                 if not summary.get('failed') or summary.get('passed'):
                     raise Violation('not_marked_failed:' + kind, 'summary is {}\n{}'.format(
                         {k: summary.get(k) for k in ('passed', 'failed', 'skipped')}, where))
@@ -378,13 +392,32 @@ def case_strategy(D):
             'extra_bad': [D.choice([k for k in sorted(KINDS) if k != 'import_error']) for _ in range(D.int(0, 4))]}
 
 
+@composite
+def fuzz_strategy(D):
+    def text(lo, hi):
+        return ''.join(D.choice(FUZZ_TOKENS) for _ in range(D.int(lo, hi)))
+    got = '\n'.join(text(0, 4) for _ in range(D.int(1, 3)))
+    want = []
+    for _ in range(D.int(1, 4)):
+        ln = text(1, 4)
+        if not ln.strip() or ln.lstrip().startswith(('>>>', '...')):
+            ln = 'w' + ln          # a want line is never blank and never looks like source
+        want.append(ln)
+    return {'kind': 'want_fuzz', 'fuzz': {'got': got, 'want': want}, 'pre': [D.choice(sorted(PRE)) for _ in range(D.int(0, 2))],
+            'post': [], 'verbose': D.choice([0, 1, 2, 3]), 'runner': 'run'}
+
+
 def hyp_shapes(ctx, n_examples):
     engine.hyp_run(ctx, case_strategy(), check_case, n_examples)
 
 
+def hyp_fuzz(ctx, n_examples):
+    engine.hyp_run(ctx, fuzz_strategy(), check_case, n_examples)
+
+
 def health(tot, tier):
     c = tot['classes']
-    for k in KINDS:
+    for k in list(KINDS) + ['want_fuzz']:
         if c.get('kind:' + k, 0) < 1:
             return 'kind {} was never run'.format(k)
     for need in ('runner:run', 'runner:module', 'runner:named', 'runner:cli'):
@@ -410,4 +443,5 @@ def jobs(tier):
     quick = tier == 'quick'
     out = [('product#%d' % s, 'product', dict(shard=s, nshards=12, cli_every=0 if quick else 1)) for s in range(12)]
     out += [('hyp_shapes#%d' % s, 'hyp_shapes', dict(n_examples=400 if quick else 6000)) for s in range(4)]
+    out += [('hyp_fuzz#%d' % s, 'hyp_fuzz', dict(n_examples=600 if quick else 10000)) for s in range(4)]
     return out
